@@ -21,19 +21,18 @@ Definition row_term (r : row) (t : term) : N :=
 (* replace_variables_with_bound_values *)
 Definition row_inst (r : row) (c : atom) : fact := (row_term r (a_s c), row_term r (a_p c), row_term r (a_o c)).
 
-(* evaluate_filters: a filter whose variable is unbound is skipped; a variable-valued filter whose
+(* evaluate_filters: a filter whose variable is unbound is skipped; when the value names a bound variable only
+   "=" and "!=" are evaluated (on ids) and every other operator passes; a variable-valued filter whose
    value variable is unbound falls through to the numeric comparison with parse("X..") = 0.0 *)
 Definition eval_filter (nv : N -> Z) (r : row) (f : fcond) : bool :=
   match f with
   | FNum x op z => match rget (KV x) r with Some l => cmp_num op (nv l) z | None => true end
-  | FVarEq x y =>
+  | FVar x op y =>
       match rget (KV x) r with
-      | Some l => match rget (KV y) r with Some rr => N.eqb l rr | None => cmp_num Eq (nv l) 0%Z end
-      | None => true
-      end
-  | FVarNe x y =>
-      match rget (KV x) r with
-      | Some l => match rget (KV y) r with Some rr => negb (N.eqb l rr) | None => cmp_num Ne (nv l) 0%Z end
+      | Some l => match rget (KV y) r with
+                  | Some rr => match op with Ne => negb (N.eqb l rr) | Eq => N.eqb l rr | _ => true end   (* `_ => {}` *)
+                  | None => cmp_num op (nv l) 0%Z
+                  end
       | None => true
       end
   end.
